@@ -11,6 +11,7 @@ import (
 	"encoding/json"
 	"fmt"
 	"os"
+	"strings"
 	"sync"
 	"time"
 
@@ -644,11 +645,29 @@ func RunHistory(t int, kinds []string, poolSize uint32, trk *track.Tracker) Trac
 
 // RunHistoryOpt: immediate = the application releases every response the moment the call returns it
 func RunHistoryOpt(t int, kinds []string, poolSize uint32, trk *track.Tracker, immediate bool) Trace {
+	return runHistoryCfg(t, kinds, poolSize, trk, immediate, true)
+}
+
+// usesBlockwise: the history needs the block-wise layer
+func usesBlockwise(kinds []string) bool {
+	for _, k := range kinds {
+		if strings.HasPrefix(k, "bw") || strings.HasPrefix(k, "srvBw") || k == "tickBw" {
+			return true
+		}
+	}
+	return false
+}
+
+// runHistoryCfg: bw = the connection has the block-wise layer (without it the transport label is "udp-nobw")
+func runHistoryCfg(t int, kinds []string, poolSize uint32, trk *track.Tracker, immediate bool, bw bool) Trace {
 	tr := Trace{T: t, Transport: "udp", Ev: []Ev{}}
+	if !bw {
+		tr.Transport = "udp-nobw"
+	}
 	e := &env{mid: 20000, taken: map[int]bool{}, tr: trk, immediate: immediate}
 	e.u = conns.NewUDP(func(cfg *udpclient.Config) {
 		cfg.MessagePool = pool.New(poolSize, 2048)
-		cfg.BlockwiseEnable = true
+		cfg.BlockwiseEnable = bw
 		cfg.BlockwiseSZX = blockwise.SZX16
 		cfg.BlockwiseTransferTimeout = 3 * time.Second
 		cfg.TransmissionNStart = 8
@@ -716,6 +735,8 @@ func Run(stimPath, out string) {
 		stims = append(stims, st.Kinds)
 	}
 	res := make([]Trace, 2*len(stims)) // every history on a udp and on a tcp connection
+	var extraMu sync.Mutex
+	var extra []Trace // ... and those that do not need the block-wise layer on a udp connection without it
 	var wg sync.WaitGroup
 	sem := make(chan struct{}, 8)
 	for i := range stims {
@@ -725,11 +746,20 @@ func Run(stimPath, out string) {
 			defer wg.Done()
 			res[2*i] = runOne(i+1, stims[i])
 			res[2*i+1] = RunHistoryTCP(i+1, stims[i])
+			if !usesBlockwise(stims[i]) {
+				x := runHistoryCfg(i+1, stims[i], 64, nil, false, false)
+				extraMu.Lock()
+				extra = append(extra, x)
+				extraMu.Unlock()
+			}
 			<-sem
 		}(i)
 	}
 	wg.Wait()
 	for _, t := range res {
+		wr.Put(t)
+	}
+	for _, t := range extra {
 		wr.Put(t)
 	}
 }
